@@ -600,14 +600,20 @@ Section Decoder.
   End WithSub.
 
   (* Parse of model mi.  depth bounds struct nesting (every nested reader is strictly shorter, so the input
-     length + 1 always suffices: theorem); the loop fuel is Length()+1. *)
+     length + 1 always suffices: theorem). *)
   Fixpoint parse (depth : nat) (sc : schema) (mi : nat) (ic : bool) (r : R) : res parse_out :=
     match depth with
     | O => Err E_FUEL
     | S d =>
       match nth_error sc mi with
       | None => Err E_NOMODEL
-      | Some m => ploop (parse d sc) (S (Z.to_nat (r_len r))) m ic (init_pst m) (-1)%Z r
+      | Some m =>
+        (* loop fuel = remaining bytes + 1 (Length() - Pos() + 1): every iteration consumes at least one byte *)
+        match r_pos r with
+        | Ok p0 => ploop (parse d sc) (S (Z.to_nat (r_len r - p0))) m ic (init_pst m) (-1)%Z r
+        | Err e => Err e
+        | Panic w => Panic w
+        end
       end
     end.
 End Decoder.
